@@ -7,7 +7,7 @@ Per run: solve with the real library, export what each accessor returns (exactly
 A VIOLATION is reported only when the oracle certifies that an accessor's disc contains NO root
 (count upper bound 0), or when the multiprecision accessor does not return the stored value.
 acc_ok failures that the oracle cannot judge are counted, not reported."""
-import os, json, collections
+import os, sys, json, collections
 from fractions import Fraction as Fr
 import vf, solve as S, polygen as G, e2e
 
@@ -128,6 +128,48 @@ def run(ctx):
                 stats["contains-root:" + name + ":" + ph] += 1; nontrivial.add(key)
             else:
                 stats["straddles:" + name] += 1
+    # ---- the Python binding (examples/python/mpsolve.py): Context.get_roots() with Context.get_inclusion_radii()
+    py_stats = collections.Counter()
+    try:
+        bpic = ctx.build_repo("pic")
+        pycases = [c for c in cases if c["cls"] in ("random-integer", "random-integer-complex", "from-dyadic-roots", "wilkinson", "x^n-1", "mignotte", "kac", "clustered-2^-24", "clustered-2^-16", "clustered-2^-8", "clustered-2^-30")
+                   and all(x[0].denominator == 1 and x[1].denominator == 1 for x in c["coeffs"]) and c["degree"] <= ctx.pick(12, 20)][:ctx.pick(10, 60)]
+        lines = [json.dumps({"name": c["name"], "alg": k % 2, "coeffs": [[int(x[0]), int(x[1])] for x in c["coeffs"]]}) for k, c in enumerate(pycases)]
+        penv = dict(os.environ); penv["LD_LIBRARY_PATH"] = bpic; penv["PYTHONPATH"] = os.path.join(bpic, "snap", "examples", "python")
+        rc, out, err = vf.sh([sys.executable, os.path.join(vf.VERIF, "harness", "c16_pybinding.py")], input="\n".join(lines) + "\n", env=penv, timeout=600)
+        if rc != 0:
+            ctx.violation("python-binding:crash", "the Python binding crashed or raised (rc %d): %s" % (rc, err[-300:]), {"stderr": err[-2000:], "inputs": lines[:3]})
+        got = {}
+        for ln in out.split("\n"):
+            if ln.strip():
+                j = json.loads(ln); got[j["name"]] = j
+        from oracle import Oracle, certify_all
+        orcs = []
+        for c in pycases:
+            if c["name"] in got: orcs.append((c, Oracle(c["coeffs"])))
+        oks = certify_all([o for _, o in orcs], target_radius_log2=-130, workers=16, timeout=300) if orcs else []
+        for (c, o), ok in zip(orcs, oks):
+            g = got[c["name"]]
+            if len(g["roots"]) != len(g["radii"]):
+                ctx.violation("python-binding:length-mismatch", "get_roots and get_inclusion_radii return lists of different length", {"case": c["name"], "text": c["text"]}); continue
+            discs = [(Fr(float.fromhex(z[0])), Fr(float.fromhex(z[1])), Fr(float.fromhex(r))) for z, r in zip(g["roots"], g["radii"])
+                     if all(abs(float.fromhex(v)) != float("inf") and float.fromhex(v) == float.fromhex(v) for v in (z[0], z[1], r))]
+            if not ok:
+                py_stats["oracle-undecided"] += len(discs); continue
+            for d, v in zip(discs, e2e.count_discs(o, discs)):
+                evaluations += 1
+                if v[1] == 0:
+                    py_stats["VIOLATION"] += 1
+                    ctx.violation("no-root-in-disc:python-binding:get_roots+get_inclusion_radii",
+                                  "Python Context.get_roots()/get_inclusion_radii() hand out a disc with no root (certified): %s value (%s, %s) radius %s" % (c["name"], float(d[0]), float(d[1]), float(d[2])),
+                                  {"case": c["name"], "text": c["text"], "opts": ["python-binding"], "disc": [str(x) for x in d]})
+                elif v[0] >= 1:
+                    py_stats["contains-root"] += 1; nontrivial.add((c["name"], "python", str(d[0]), str(d[1])))
+                else: py_stats["straddles"] += 1
+            o.close()
+    except vf.InfraError:
+        raise
+    stats.update({"python-binding:" + k: v for k, v in py_stats.items()})
     ctx.log("oracle queries done")
     # (a) model predicate on the same pairs, evaluated by the extracted Coq function
     if model_lines:
